@@ -88,3 +88,44 @@ Proof.
   rewrite E1 in Ea. rewrite E2 in Eb. inversion Ea; inversion Eb; subst.
   apply lookup_monotone; auto; eapply extract_sub; eauto.
 Qed.
+
+(* ---- nothing the map can produce is lost: every output value of the map is
+   the mapped output of some supported input (first key of its first run) ---- *)
+Lemma lookup_skip k0 v0 r k :
+  Forall (fun x => k0 < x) (map fst r) -> In k (map fst r) -> lookup ((k0, v0) :: r) k = lookup r k.
+Proof.
+  intros HK Hin. rewrite Forall_forall in HK. specialize (HK _ Hin).
+  cbn [lookup]. destruct (Z.eqb_spec k0 k); [lia|reflexivity].
+Qed.
+
+Lemma extract_covers pm : forall last v,
+  StronglySorted Z.lt (map fst pm) -> In v (map snd pm) ->
+  v = last \/ exists k, In k (extract last pm) /\ lookup pm k = v.
+Proof.
+  induction pm as [|[k0 v0] r IH]; intros last v S Hin; [contradiction|].
+  cbn [map fst snd] in S, Hin. inversion S as [|? ? Sr HK]; subst.
+  assert (Hk0 : lookup ((k0, v0) :: r) k0 = v0) by (cbn [lookup]; now rewrite Z.eqb_refl).
+  cbn [extract]. destruct ((last =? -1) || negb (last =? v0)) eqn:C.
+  - right. destruct Hin as [<-|Hin].
+    + exists k0. split; [left; reflexivity|exact Hk0].
+    + destruct (IH v0 v Sr Hin) as [->|[k [Hk L]]].
+      * exists k0. split; [left; reflexivity|exact Hk0].
+      * exists k. split; [right; exact Hk|].
+        rewrite lookup_skip; auto. eapply extract_sub; eauto.
+  - apply orb_false_iff in C. destruct C as [_ C]. apply negb_false_iff, Z.eqb_eq in C. subst v0.
+    destruct Hin as [<-|Hin]; [left; reflexivity|].
+    destruct (IH last v Sr Hin) as [->|[k [Hk L]]]; [left; reflexivity|].
+    right. exists k. split; [exact Hk|].
+    rewrite lookup_skip; auto. eapply extract_sub; eauto.
+Qed.
+
+Theorem supported_covers_outputs pm v :
+  StronglySorted Z.lt (map fst pm) -> Forall (fun kv => snd kv <> -1) pm ->
+  In v (map snd pm) -> exists k, In k (supported pm) /\ written pm k = FcVal v.
+Proof.
+  intros S Hall Hin.
+  destruct (extract_covers pm (-1) v S Hin) as [->|[k [Hk L]]].
+  - exfalso. apply in_map_iff in Hin. destruct Hin as [kv [E Hkv]].
+    rewrite Forall_forall in Hall. apply (Hall kv Hkv). exact E.
+  - exists k. split; [exact Hk|]. rewrite written_fixed_point; auto. now rewrite L.
+Qed.
